@@ -66,7 +66,25 @@ def make_cases(ctx, n):
     cases = []
     for t in range(n):
         t0 = gen.rand_tree(ctx.rng, depth=ctx.rng.choice([1, 2, 3]), fanout=4, neg_frac=False)
+        if t % 3 == 0:
+            # a directory D with a sub-directory, next to a sibling whose name is D plus a byte that sorts below '/':
+            # path order and string order disagree across them; then entries come and go inside D's sub-directory
+            def f(d, m):
+                return {"k": "f", "data": d.hex(), "mode": 0o644, "mtime": 10**18 + m}
+            base = ctx.rng.choice(["proj", "lib", "a", "ñ"])
+            sib = base + ctx.rng.choice(["-old", ".bak", " 2", "+", ",x", "!"])
+            t0["c"][base] = {"k": "d", "mode": 0o755, "mtime": 10**18, "c": {
+                "src": {"k": "d", "mode": 0o755, "mtime": 10**18, "c": {"main": f(b"m", 1), "util": f(b"u", 2)}}, "top": f(b"t", 3)}}
+            t0["c"][sib] = {"k": "d", "mode": 0o755, "mtime": 10**18, "c": {"notes": f(b"n", 4)}}
         t1, muts = gen.mutate_tree(ctx.rng, t0)
+        if t % 3 == 0 and base in t1["c"] and t1["c"][base]["k"] == "d" and "src" in t1["c"][base]["c"] and t1["c"][base]["c"]["src"]["k"] == "d":
+            srcd = t1["c"][base]["c"]["src"]["c"]
+            if ctx.rng.random() < 0.5 and "util" in srcd:
+                del srcd["util"]
+                muts.append(("remove", f"/{base}/src/util"))
+            else:
+                srcd["zz-new"] = {"k": "f", "data": "6e", "mode": 0o644, "mtime": 10**18 + 9}
+                muts.append(("add", f"/{base}/src/zz-new"))
         opts = gen.rand_opts(ctx.rng)
         steps = [
             {"op": "init"}, {"op": "mktree", "path": "src", "tree": t0}, {"op": "backup", "opts": opts},
